@@ -28,7 +28,7 @@ ASSUMPTIONS = [
     "eigenvectors whose bilinear form q^T B q (nearly) vanishes are excluded by construction (|q^T B q| >= 0.05 q^H B q):"
     " the documented normalisation does not exist for them (e.g. complex eigenvectors of real normal matrices)",
     "hermitian= hint is only given with its true value; sorting functions depend on the eigenvalues only",
-    "sparse path: mode='normal' only; mass matrices with zero bc diagonal (the module default, positive semi-definite) "
+    "sparse path: mode='buckling'/'cayley' only for real symmetric pencils with a non-zero shift (scipy rejects them otherwise); mass matrices with zero bc diagonal (the module default, positive semi-definite) "
     "are included because the repository's own tests use them; sigma is never closer to an eigenvalue than 0.3 of the "
     "local eigenvalue spacing",
     "trusted: numpy.linalg (eigvals, solve, cholesky), scipy.optimize.linear_sum_assignment, pyMOTO assembly modules "
@@ -90,6 +90,8 @@ def strategy(tier):
              "sigma_idx": draw(st.integers(0, 11)), "sigma_below": draw(st.booleans()),
              "bc": bc, "bc_side": draw(st.integers(0, 5)), "bc_extra": draw(st.integers(0, 3)),
              "hint": draw(st.booleans()), "sorter": draw(st.sampled_from(["default", "desc", "abs_target"])),
+             # ARPACK shift-invert variant (documented `mode` keyword; used for real symmetric pencils with a shift)
+             "amode": draw(st.sampled_from(["normal", "normal", "buckling", "cayley"])),
              "payload_seed": draw(SEED)}
         if c["phys"] == "elast":
             # free-free elastic pencils have a 3/6-fold eigenvalue (rigid-body modes) on which ARPACK can fail to
@@ -306,7 +308,7 @@ def check_case(case):
     return _check_sparse(case)
 
 
-def _common_checks(bad, tag, A, B, W, Q, sorter_name, target, fn, real_sym):
+def _common_checks(bad, tag, A, B, W, Q, sorter_name, target, fn, real_sym, tol_res=None):
     """Residual, bilinear normalisation, ordering, sign convention. A, B dense arrays (B may be None)."""
     k = W.size
     nA = np.linalg.norm(A)
@@ -327,7 +329,7 @@ def _common_checks(bad, tag, A, B, W, Q, sorter_name, target, fn, real_sym):
         worst_n = max(worst_n, nv)
     # residual depends on the eigen-solver that was dispatched (tag); normalisation / order / sign are produced by the
     # common post-processing loop of EigenSolve._response: no tag, one bucket per sub-claim
-    if worst_r > TOL_RES:
+    if worst_r > (TOL_RES if tol_res is None else tol_res):
         bad(f"residual:{tag}", f"max_i |A q_i - lam_i B q_i| / ((|A|+|lam_i||B|)|q_i|) = {worst_r:.3e}")
     if worst_n > TOL_NORM:
         bad("normalisation", f"max_i |q_i^T B q_i - 1| = {worst_n:.3e} (bilinear form, no conjugation)")
@@ -550,13 +552,29 @@ def _check_sparse(case):
         sigma_arg = sigma
         if sigma == 0.0:
             sigma = sigma_arg = 0.011 * top
+    # ARPACK mode: buckling uses A as inner-product matrix (A must be positive definite: needs boundary conditions);
+    # in both special modes an infinite eigenvalue (singular M) maps to nu = 1 and could be "found": M gets a positive
+    # bc diagonal there
+    amode = case.get("amode", "normal")
+    if cplx or phase or sigma_arg is None or sigma == 0.0 or (amode == "buckling" and bc is None):
+        amode = "normal"
+    if amode != "normal" and sigma <= pr_unit[0]:
+        # a shift below the whole spectrum: all nu cluster at 1, ARPACK converges poorly or not at all (seen on the
+        # unchanged tree: residual 6e-6, ArpackNoConvergence) -- a limitation of these modes, not of EigenSolve
+        amode = "normal"
+    if amode != "normal" and gen and bc is not None and mbc == 0.0:
+        mbc = 0.37
+        labels[labels.index("mass_bc_zero")] = "mass_bc_pos"
+        if kbc is not None:
+            kbc = 25.0 * top * mbc
+    labels.append("mode_" + amode)
     V = []
     tag = "sparse:" + ("general" if cplx else "hermitian")
 
     def bad(sub, detail):
         V.append(viol(f"C11:{sub}", f"{detail} | {case['phys']} nel={case['dom']['nel']} gen={gen} cplx={cplx} "
                                     f"sigma={sigma_arg} nmodes={nm} bc={case['bc']} kbc={kbc} mbc={mbc} "
-                                    f"sorter={case['sorter']}"))
+                                    f"sorter={case['sorter']} mode={case.get('amode')}"))
 
     K = b["assemble_K"](bc, kbc)
     M = b["assemble_M"](bc, mbc) if gen else None
@@ -581,14 +599,31 @@ def _check_sparse(case):
     if np.min(dist) < 1e-6 * top:
         labels.append("skipped_sigma_on_eigenvalue")
         return labels, []
-    order = np.argsort(dist)
-    want = ref[order[:k_eff]]
-    dk = dist[order[k_eff - 1]]
-    dnext = dist[order[k_eff]] if k_eff < len(ref) else np.inf
-    conclusive = (dnext - dk) > 1e-3 * max(dk, 1e-3 * top)
-    if nbc and nbc > 1 and np.isfinite(spur) and abs(spur - sigma) <= dnext * (1 + 1e-9):
-        conclusive = False     # a multiple spurious eigenvalue inside / next to the window
-        labels.append("spurious_in_window")
+    if amode == "normal":
+        order = np.argsort(dist)
+        want = ref[order[:k_eff]]
+        dk = dist[order[k_eff - 1]]
+        dnext = dist[order[k_eff]] if k_eff < len(ref) else np.inf
+        conclusive = (dnext - dk) > 1e-3 * max(dk, 1e-3 * top)
+        if nbc and nbc > 1 and np.isfinite(spur) and abs(spur - sigma) <= dnext * (1 + 1e-9):
+            conclusive = False     # a multiple spurious eigenvalue inside / next to the window
+            labels.append("spurious_in_window")
+    else:
+        # ARPACK returns the k eigenvalues whose TRANSFORMED value nu is largest in magnitude:
+        # buckling nu = lam/(lam - sigma), cayley nu = (lam + sigma)/(lam - sigma); nu -> 1 for lam -> inf
+        with np.errstate(invalid="ignore", divide="ignore"):
+            nu = np.abs(ref / (ref - sigma)) if amode == "buckling" else np.abs((ref + sigma) / (ref - sigma))
+        nu = np.where(np.isfinite(ref), nu, 1.0)
+        order = np.argsort(-nu)
+        want = ref[order[:k_eff]]
+        nk = nu[order[k_eff - 1]]
+        nnext = nu[order[k_eff]] if k_eff < len(ref) else 0.0
+        conclusive = (nk - nnext) > 1e-3 * nk and np.all(np.isfinite(want))
+        if nbc and nbc > 1:
+            snu = nu[len(phys)]
+            if snu >= nnext * (1 - 1e-9):
+                conclusive = False
+                labels.append("spurious_in_window")
     ws = np.sort_complex(want)
     if len(ws) > 1 and np.min(np.abs(np.diff(ws))) < 1e-6 * top:
         conclusive = False
@@ -606,6 +641,8 @@ def _check_sparse(case):
     if case["hint"]:
         kwargs["hermitian"] = not cplx
         labels.append("hint")
+    if amode != "normal":
+        kwargs["mode"] = amode
     sigs = [pym.Signal("K", K)] + ([] if M is None else [pym.Signal("M", M)])
     try:
         mod = pym.EigenSolve(sigs, **kwargs)
@@ -620,12 +657,15 @@ def _check_sparse(case):
     if not (np.all(np.isfinite(W)) and np.all(np.isfinite(Q))):
         bad(f"finite:{tag}", "non-finite eigenvalues or eigenvectors")
         return labels, V
-    _common_checks(bad, tag, Kd, Md, W, Q, case["sorter"], target, fn, not cplx and not phase)
+    # buckling / cayley: ARPACK maps nu back to lam = sigma nu/(nu-1) resp. sigma (nu+1)/(nu-1), which amplifies its
+    # round-off by (lam-sigma)^2/|sigma|: residuals of 1e-8 are seen on the unchanged tree, 1e-6 is allowed
+    _common_checks(bad, tag, Kd, Md, W, Q, case["sorter"], target, fn, not cplx and not phase,
+                   tol_res=None if amode == "normal" else 1e-6)
     if conclusive:
         sc = max(np.max(np.abs(want)), abs(sigma), 1e-300)
         d = _match(W, want)
         if d > TOL_EIG_SPARSE * sc:
-            bad(f"closest_to_sigma:{tag}", f"returned {np.array2string(np.sort_complex(W), precision=6)} but the {k_eff} "
+            bad(f"closest_to_sigma:{tag}" + ("" if amode == "normal" else ":" + amode), f"returned {np.array2string(np.sort_complex(W), precision=6)} but the {k_eff} "
                                            f"eigenvalues closest to sigma={sigma:.6g} are "
                                            f"{np.array2string(np.sort_complex(want), precision=6)} (diff {d / sc:.2e})")
     return labels, V
